@@ -295,7 +295,39 @@ def r08_6(ctx):
     ctx.ob('R08.6', 'after_fork:reset_signals-on-every-path', ok, af, None, 'not skippable', path=w)
 
 
+def r08_9(ctx):
+    ctx.rule('R08.9', 'the worker installs its termination handlers after everything user-supplied has run in '
+                      'after_fork, and before the work loop: nothing later can replace them', floor=2)
+    m = ctx.model
+    fi = m.func('pool:Worker.after_fork')
+    cfg = fi.cfg
+    resets = q.nodes_calling(fi, 'reset_signals')
+    q.need(resets, 'Worker.after_fork does not call reset_signals')
+    user = [n for (n, c) in q.calls(fi, lambda t: t in ('self.initializer',))]
+    q.need(user, 'Worker.after_fork does not call the initializer')
+    after = cfg.reach([r.id for r in resets], skip_labels=('x',))
+    late = [u for u in user if u.id in after]
+    ctx.ob('R08.9', 'after_fork:no-user-code-after-the-handlers-are-installed', not late, fi, late[0] if late else resets[0],
+           'the initializer runs before reset_signals()' if not late else
+           'the initializer runs after reset_signals(): whatever it does to SIGTERM / SIGHUP (Celery resets them) '
+           'replaces the handler that turns the signal into SystemExit -- a signalled worker dies without its exit '
+           'callback, or does not stop at all')
+    ok = cfg.must_pass([cfg.entry], [cfg.exit], resets, skip_labels=('x',))[0]
+    ctx.ob('R08.9', 'after_fork:handlers-installed-on-every-path', ok, fi, resets[0], 'reset_signals() is not skippable')
+    # signal.signal calls after the reset may only concern signals that are not termination signals
+    term = {'signal.SIGTERM', 'signal.SIGHUP', 'signal.SIGQUIT', 'TERM_SIGNAL'}
+    bad = [c for (n, c) in q.calls(fi, 'signal.signal') if n.id in after and c.args and ast.unparse(c.args[0]) in term]
+    ctx.ob('R08.9', 'after_fork:no-termination-signal-rebound-afterwards', not bad, fi, bad[0] if bad else None,
+           'after reset_signals only the soft-timeout signal and SIGINT are bound')
+
+
 def run(ctx):
+    r08_9(ctx)
+    # terminate() ends by joining every worker without a timeout
+    from .c19 import untimed_sentinel_wait
+    ctx.rule('R08.10', 'the untimed join of a worker blocks in waitpid, not on the sentinel pipe its descendants keep '
+                       'open', floor=1)
+    untimed_sentinel_wait(ctx, 'R08.10')
     r08_1(ctx)
     r08_2(ctx)
     r08_3(ctx)
@@ -318,6 +350,14 @@ def run(ctx):
 _P ='billiard/pool.py'
 _C = 'billiard/common.py'
 MUTANTS = [
+    ('handlers-installed-before-the-initializer', _P,
+     "        if self.initializer is not None:\n            self.initializer(*self.initargs)\n\n        # Make sure all exiting signals call finally: blocks.\n        # This is important for the semaphore to be released.\n        reset_signals(full=self.sigprotection)\n",
+     "        reset_signals(full=self.sigprotection)\n\n        if self.initializer is not None:\n            self.initializer(*self.initargs)\n", 'R08.9'),
+    ('handlers-only-with-sigprotection', _P, "        reset_signals(full=self.sigprotection)\n",
+     "        if self.sigprotection:\n            reset_signals(full=True)\n", 'R08.9'),
+    ('untimed-join-waits-on-the-sentinel', 'billiard/popen_fork.py',
+     "            if timeout is not None:\n                from .connection import wait\n                if not wait([self.sentinel], timeout):\n                    return None\n",
+     "            from .connection import wait\n            if not wait([self.sentinel], timeout):\n                return None\n", 'R08.10'),
     ('refill-state-checked-once', _P, "        for i in range(self._processes - len(self._pool)):\n            if self._state != RUN:\n                return\n",
      "        if self._state != RUN:\n            return\n        for i in range(self._processes - len(self._pool)):\n", 'R09.1'),
     ('feeder-state-checked-once-per-sequence', _P, "                for i, task in enumerate(taskseq):\n                    if self._state:\n                        debug('task handler found thread._state != RUN')\n                        break\n                    try:\n",
